@@ -1,7 +1,8 @@
 /- line-protocol handlers of Algorithm 3 (ctfTR, property C09): the complete conditional procedure
 
      (ctftr cond  <target graph> <domains> <outcomes> <conditions>)
-        -> (ok  <order-sensitive: true|false> <answer>)      answer = (ok <expr> <event>|none) | (fail) | (err …)
+        -> (ok  <order-sensitive: true|false> <in the class of ctfTR_sound_partial: true|false> <answer>)
+           answer = (ok <expr> <event>|none) | (fail) | (err …)
      (ctftr classes <target graph> <domains> <outcomes> <conditions>)
         -> (ok <OutcomesFound> <DstarOneWorld> <OutcomeNotCondition> <popsCoverCheck> <qGoodCheck>)
            the hypotheses of `ctfTR_no_internal_error_partial` that are decidable predicates on the input
@@ -29,7 +30,8 @@ def handleCtfTr (op : String) (args : List Sexp) : Option Sexp := do
       let D ← tr_domainsOf? ds
       let O ← tr_eventOf? o
       let Cn ← tr_eventOf? c
-      pure (tagged "ok" [tr_boolSexp (CtfTr.ctfTROrderSensitive G D O Cn), tr_answerSexp (CtfTr.ctfTR G D O Cn)])
+      pure (tagged "ok" [tr_boolSexp (CtfTr.ctfTROrderSensitive G D O Cn), tr_boolSexp (CtfTr.ctfTRInClass G D O Cn),
+        tr_answerSexp (CtfTr.ctfTR G D O Cn)])
   | "uncond", [g, ds, ev] =>
       let G ← parseGraph g
       let D ← tr_domainsOf? ds
